@@ -429,7 +429,7 @@ func c20Mutants(r *vlib.Run, id string, m *gen.Model, anch map[string]anchorInfo
 			r.Violation("c20.accepts-invalid-option", mu.ID()+" (oracle "+oracle+")", mid, w)
 			continue
 		}
-		r.Class("m:error-shape " + mu.ID() + ": " + gen.ClassifyErr(out.ErrSummary()))
+		r.Class("m:error-shape " + mu.ID() + ": " + errTail(out.ErrSummary()))
 	}
 }
 
@@ -615,4 +615,24 @@ func c20R1(r *vlib.Run) {
 			reportRecorded(r, id, "R1", want.GetName(), gd, wd, map[string]any{"set": set.Name})
 		}
 	}
+}
+
+// errTail is the rule-specific tail of the first error of a summary (element
+// and option names, which vary with the model, are dropped).
+func errTail(summary string) string {
+	c := gen.ClassifyErr(summary)
+	if i := strings.LastIndex(c, "): "); i >= 0 {
+		c = c[i+3:]
+	} else if i := strings.Index(c, ": "); i >= 0 && strings.HasPrefix(c, "message ") {
+		c = c[i+2:]
+	}
+	var sb strings.Builder
+	for _, w := range strings.Fields(c) {
+		if strings.Contains(w, ".") && !strings.HasSuffix(w, ".") {
+			w = "<name>"
+		}
+		sb.WriteString(w)
+		sb.WriteByte(' ')
+	}
+	return strings.TrimSpace(sb.String())
 }
